@@ -343,6 +343,26 @@ func genC13(tier string, rng *Rng) {
 			qs = append(qs, qspec{kind: "preds", def: d})
 		}
 		runQueries(t, qs)
+		// the SAME topology object edited in place after it has been looked up (type-index entries replaced
+		// under their keys, override attributes changed through the existing pointer), then looked up again:
+		// the second round is an ordinary case about the edited topology (seed C13-13: resolved definitions
+		// cached per component, validated only by type number and override pointer)
+		if i%4 == 0 && (len(t.TypeIndex) > 0 || len(t.HWc) > 0) {
+			for k := range t.TypeIndex {
+				d := topology.TopologyHWcTypeDef{}
+				fillValue(reflect.ValueOf(&d).Elem(), "", o, 1)
+				t.TypeIndex[k] = d
+			}
+			for j := range t.HWc {
+				if ov := t.HWc[j].TypeOverride; ov != nil {
+					nv := topology.TopologyHWcTypeDef{}
+					fillValue(reflect.ValueOf(&nv).Elem(), "", o, 1)
+					ov.W, ov.H, ov.In, ov.Out, ov.Ext, ov.Desc, ov.Disp = nv.W, nv.H, nv.In, nv.Out, nv.Ext, nv.Desc, nv.Disp
+				}
+			}
+			runQueries(t, qs)
+			hist["edited-after-lookup"]++
+		}
 		cases++
 		hist["random-ncomp-"+string(rune('0'+ncomp))]++
 		dup := map[uint32]bool{}
